@@ -4,6 +4,7 @@ See DESIGN.md 2.  Loops are cut at invariants, calls to functions under contract
 calls by theory terms (pyvc.theories).  One Obligation per (clause, path).
 """
 import ast
+import os
 import itertools
 import time
 import z3
@@ -194,14 +195,35 @@ class Engine:
       st.assume(cond if b else z3.Not(cond))
     return b
 
+  FEAS_RLIMIT = int(os.environ.get("VERIF_FEAS_RLIMIT", "0"))
+
+  def _budget(self, s):
+    """Budget of the path-shaping solver calls (branch feasibility, `known`).  Their answers only prune infeasible paths
+    or simplify terms - sound either way - but they decide WHICH obligations exist, so the budget is a deterministic
+    resource count (z3 rlimit) rather than wall-clock time: the set of generated obligations then does not depend on the
+    load of the machine.  The wall-clock limit stays as a generous safety net."""
+    if self.FEAS_RLIMIT:
+      s.set("rlimit", self.FEAS_RLIMIT)
+      s.set("timeout", 20000)
+    else:
+      s.set("timeout", self.FEAS_TIMEOUT_MS)
+
   def feasible(self, st, extra=None):
     self.stats["feas_checks"] += 1
     s = z3.Solver()
-    s.set("timeout", self.FEAS_TIMEOUT_MS)
+    self._budget(s)
     for f in st.pc:
       s.add(f)
     if extra is not None:
       s.add(extra)
+    if os.environ.get("VERIF_FEAS_LOG"):
+      t0 = time.time()
+      r = s.check()
+      dt = time.time() - t0
+      if dt > 0.1 or r == z3.unknown:
+        with open(os.environ["VERIF_FEAS_LOG"], "a") as f:
+          f.write(f"{self.cur.qual if self.cur else '?'} {r} {dt:.3f}\n")
+      return r != z3.unsat
     return s.check() != z3.unsat
 
   # ================================================================================================================
@@ -793,7 +815,7 @@ class Engine:
   def known(self, st, fact):
     """True if the path condition implies `fact` (cheap check)."""
     s = z3.Solver()
-    s.set("timeout", self.FEAS_TIMEOUT_MS)
+    self._budget(s)
     for f in st.pc:
       s.add(f)
     s.add(z3.Not(fact))
